@@ -65,4 +65,57 @@ mod verif_kani {
         g.record_observation();
         assert!(g.current_observed == old + 1);
     }
+
+    // ---- update_rates: the REAL body (copied each run into verif_kani_gen::VerifCongress::update_rates, see
+    // kani/writer/gen_congress.py) on 0..=2 groups in ANY state that satisfies the per-group invariant.
+    // Decided here: every rate is a number in [0,1]; all rates are exactly 1 when the interval saw no more than the
+    // target; the interval counter is reset; groups are only dropped by the TTL rule.
+    // NOT decided: rate > 0, the budget sum(avg x rate) <= target and monotonicity (relational float facts).
+    fn any_group() -> GroupState {
+        let g = GroupState {
+            current_observed: kani::any(),
+            consecutive_no_observations: kani::any(),
+            average_observed: ExpMovingAverage { samples: kani::any(), value: kani::any() },
+            sample_rate: kani::any(),
+            size_in_congress: kani::any(),
+        };
+        kani::assume(g.consecutive_no_observations <= NO_OBSERVATIONS_TTL);
+        kani::assume(g.average_observed.samples <= EXP_MOVING_AVERAGE_WINDOW);
+        // averages are moving averages of per-interval counts: finite and non-negative
+        kani::assume(g.average_observed.value.is_finite() && g.average_observed.value >= 0.0);
+        g
+    }
+    fn check_update_rates(n: usize) {
+        use super::verif_kani_gen::*;
+        let mut c = VerifCongress {
+            target_observed: kani::any(),
+            current_observed: kani::any(),
+            groups: VerifGroups { data: [any_group(), any_group()], len: n },
+        };
+        kani::assume(c.target_observed >= 1);
+        let before = c.current_observed;
+        let target = c.target_observed;
+        c.update_rates();
+        assert!(c.current_observed == 0);
+        assert!(c.groups.len <= n);
+        let mut i = 0;
+        while i < c.groups.len {
+            let r = c.groups.data[i].sample_rate;
+            assert!(!r.is_nan());                       // a rate is always a number
+            assert!(r <= 1.0);                          // ... never above 1
+            assert!(r >= 0.0);                          // ... never negative
+            if before <= target { assert!(r == 1.0); }  // no sampling while the interval stayed within the target
+            i += 1;
+        }
+        kani::cover!(c.groups.len == n && before > target, "sampling branch reachable with all groups kept");
+    }
+    #[kani::proof]
+    #[kani::unwind(4)]
+    fn update_rates_one_group() { check_update_rates(1) }
+    #[kani::proof]
+    #[kani::unwind(4)]
+    fn update_rates_two_groups() { check_update_rates(2) }
+    #[kani::proof]
+    #[kani::unwind(4)]
+    fn update_rates_no_group() { check_update_rates(0) }
 }
